@@ -5,6 +5,7 @@
 #endif
 static struct hwloc_bitmap_s sets1[4], sets2[4];
 
+union hwloc_obj_attr_u nondet_attr(void);
 static char *mk_str(void) { char *s = malloc(2); __CPROVER_assume(s != 0); s[0] = nondet_char(); s[1] = 0; return s; }
 static int str_eq(const char *a, const char *b) { return (!a && !b) || (a && b && a[0] == b[0] && (a[0] == 0 || a[1] == b[1])); }
 
@@ -14,11 +15,14 @@ static void mk_obj(hwloc_obj_t o, struct hwloc_bitmap_s *sets, unsigned ninfo)
   memset(o, 0, sizeof(*o));
   o->depth = nondet_int(); o->logical_index = nondet_unsigned(); o->os_index = nondet_unsigned();
   o->type = (hwloc_obj_type_t)nondet_int(); __CPROVER_assume(o->type >= 0 && o->type < HWLOC_OBJ_TYPE_MAX);
+#ifdef DT_SIMPLE_TYPES
+  __CPROVER_assume(o->type == HWLOC_OBJ_MACHINE || o->type == HWLOC_OBJ_NUMANODE || o->type == HWLOC_OBJ_CORE);   /* types without memcmp'ed attributes */
+#endif
   o->subtype = nondet_bool() ? mk_str() : (char *)0;
   o->name = nondet_bool() ? mk_str() : (char *)0;
   o->total_memory = nondet_ulong();
   o->attr = malloc(sizeof(*o->attr)); __CPROVER_assume(o->attr != 0);
-  { unsigned char *p = (unsigned char *)o->attr; for (k = 0; k < sizeof(*o->attr); k++) p[k] = (unsigned char)nondet_char(); }
+  *o->attr = nondet_attr();
   for (k = 0; k < 4; k++) sets[k].bits = (unsigned char)nondet_char();
   o->cpuset = nondet_bool() ? &sets[0] : (hwloc_bitmap_t)0; o->complete_cpuset = nondet_bool() ? &sets[1] : (hwloc_bitmap_t)0;
   o->nodeset = nondet_bool() ? &sets[2] : (hwloc_bitmap_t)0; o->complete_nodeset = nondet_bool() ? &sets[3] : (hwloc_bitmap_t)0;
@@ -75,6 +79,7 @@ void hp_hwloc_diff_trees_roundtrip(void)
       if (d->obj_attr.diff.generic.type == HWLOC_TOPOLOGY_DIFF_OBJ_ATTR_NAME) __CPROVER_assert(d->obj_attr.diff.string.oldvalue != 0 && d->obj_attr.diff.string.newvalue != 0, "NAME entries carry both names");
       if (d->obj_attr.diff.generic.type == HWLOC_TOPOLOGY_DIFF_OBJ_ATTR_INFO) __CPROVER_assert(d->obj_attr.diff.string.name != 0 && d->obj_attr.diff.string.oldvalue != 0 && d->obj_attr.diff.string.newvalue != 0, "INFO entries carry the name and both values");
     }
+#ifndef DT_BUILD_ONLY
     errno = 0;
     r = hwloc_topology_diff_apply(&verif_t1, first, 0);
     __CPROVER_assert(r == 0, "applying the built diff to A succeeds");
@@ -87,6 +92,7 @@ void hp_hwloc_diff_trees_roundtrip(void)
     __CPROVER_assert((A.name != 0) == had_name && (!had_name || (A.name[0] == on0 && (on0 == 0 || A.name[1] == on1))), "after reverse: A has its own name again");
     __CPROVER_assert(A.total_memory == otm && A.attr->numanode.local_memory == olm, "after reverse: memory restored");
     if (g < n1) __CPROVER_assert(A.infos.array[g].value[0] == oi[g], "after reverse: info values restored");
+#endif
   }
   VERIF_CANARY();
 }
